@@ -13,15 +13,17 @@ import (
 // chainsOfSource reads a file written by the real generator and returns, per generated slice
 // type, "value|ptr <TypeName> <body of Less as S-expression>" in the notation of the Lean
 // driver (`Drv.GSort.showCmp`).  It only extracts; whatever it does not recognise is rendered as
-// `(other …)` and therefore disagrees with the model.
-func chainsOfSource(src []byte) (map[string]string, error) {
+// `(other …)` and therefore disagrees with the model.  The second result maps every generated
+// slice type to its element struct type.
+func chainsOfSource(src []byte) (map[string]string, map[string]string, error) {
 	fset := token.NewFileSet()
 	f, err := parser.ParseFile(fset, "gen.go", src, 0)
 	if err != nil {
-		return nil, err
+		return nil, nil, err
 	}
 	form := map[string]string{}
 	body := map[string]string{}
+	elem := map[string]string{}
 	for _, decl := range f.Decls {
 		switch d := decl.(type) {
 		case *ast.GenDecl:
@@ -34,10 +36,12 @@ func chainsOfSource(src []byte) (map[string]string, error) {
 				if !ok || at.Len != nil {
 					continue
 				}
-				if _, isPtr := at.Elt.(*ast.StarExpr); isPtr {
+				if st, isPtr := at.Elt.(*ast.StarExpr); isPtr {
 					form[ts.Name.Name] = "ptr"
+					elem[ts.Name.Name] = show(fset, st.X)
 				} else {
 					form[ts.Name.Name] = "value"
+					elem[ts.Name.Name] = show(fset, at.Elt)
 				}
 			}
 		case *ast.FuncDecl:
@@ -56,14 +60,16 @@ func chainsOfSource(src []byte) (map[string]string, error) {
 		}
 	}
 	res := map[string]string{}
+	elemOf := map[string]string{}
 	for tn, fm := range form {
 		b, ok := body[tn]
 		if !ok {
 			b = "(other no-less)"
 		}
 		res[tn] = fm + " " + tn + " " + b
+		elemOf[tn] = elem[tn]
 	}
-	return res, nil
+	return res, elemOf, nil
 }
 
 func lessParamsAreIJ(d *ast.FuncDecl) bool {
